@@ -548,6 +548,34 @@ def run(ctx, chk):
         return None
 
 
+    _idxd = []
+
+    def idx_derived():
+        """locals whose value is built from the index variable (copies, borrows, aggregates such as Some(idx))"""
+        if _idxd:
+            return _idxd[0]
+        S = {idx}
+        changed = True
+        while changed:
+            changed = False
+            for bb_ in drv["blocks"]:
+                for s_ in bb_.get("stmts", []):
+                    if s_[0] != "assign" or s_[1]["p"] or s_[1]["l"] in S:
+                        continue
+                    rv = s_[2]
+                    srcs = []
+                    if rv[0] == "use" and rv[1][0] in ("copy", "move"):
+                        srcs = [rv[1][1]["l"]]
+                    elif rv[0] == "ref":
+                        srcs = [rv[1]["l"]]
+                    elif rv[0] == "agg":
+                        srcs = [a_[1]["l"] for a_ in rv[2] if a_[0] in ("copy", "move")]
+                    if any(x in S for x in srcs):
+                        S.add(s_[1]["l"])
+                        changed = True
+        _idxd.append(S)
+        return S
+
     def classify(b):
         """atom of the switch at block b: 'I', 'T', 'R' or None (+ detail)"""
         t = M.term(drv["blocks"][b])
@@ -576,6 +604,19 @@ def run(ctx, chk):
             fa, fb = side_form(o[1][2]), side_form(o[1][3])
             if fa and fb and {fa[0], fb[0]} == {"idx", "len"}:
                 return "R", o
+        # a comparison of the index with something that is neither the length nor a constant - a remembered index
+        # (`prompted != Some(idx)`, `idx != last`): the prompt would depend on which instruction was prompted for before
+        if o[0] == "call" and re.search(r"PartialEq(<.*>)?>?::(eq|ne)$", o[1][1].get("def") or "") and not is_str_eq(drv, o[1]):
+            args_ = [a_[1]["l"] for a_ in o[1][2] if a_[0] in ("copy", "move")]
+            if any(l_ in idx_derived() for l_ in args_) and len(o) > 2 and o[2] in body:
+                return "P", o
+        if o[0] == "rvalue" and o[1][0] == "bin" and o[1][1] in ("Ne", "Eq"):
+            fa, fb = side_form(o[1][2]), side_form(o[1][3])
+            for f1, other in ((fa, o[1][3]), (fb, o[1][2])):
+                if f1 and f1[0] == "idx" and side_form(other) is None and const_of(other) is None:
+                    oo_ = origin(defs, other)
+                    if oo_[0] in ("place", "multi"):
+                        return "P", o
         if o[0] == "call":
             # a comparison of texts (== / != between strings): the prompt would depend on what the instruction says
             ct = o[1]
@@ -605,7 +646,7 @@ def run(ctx, chk):
             count += 1
         if t[0] == "switch":
             atom, o = classify(b)
-            if atom == "H":
+            if atom in ("H", "P"):
                 atom = None
             if atom is None and len([s_ for s_ in cfg.succ[b] if s_ in region or s_ == pb]) > 1:
                 unknown_tests.add(b)
@@ -675,6 +716,12 @@ def run(ctx, chk):
                           "whether the prompt is shown depends on a comparison of texts (the instruction's own text): an instruction the user wrote with that text "
                           "(e.g. a hlt of the program itself) is executed without a prompt, although exactly one prompt precedes each executed instruction while stepping",
                           f"{where}:{line_of(drv, b)}", witness="start: mov ax,1 / hlt, run with -i")
+    for b, o in atoms.get("P", []):
+        if b in guards:
+            chk.violation("C20.R4", "CMDDriver::run", "prompt-depends-on-previous-index",
+                          "whether the prompt is shown depends on a comparison of the index with a remembered value: an instruction that is executed twice in a row "
+                          "(a jump to its own line, the iterations of a REP) gets one prompt for all its executions, although exactly one prompt precedes each executed "
+                          "instruction while stepping", f"{where}:{line_of(drv, b)}", witness="w: loop w with CX >= 2, run with -i")
     for a in ("I", "T", "R"):
         if a not in atoms and unread:
             chk.undecided_("C20.R4", f"atom:{a}", f"no test of this kind was recognised, and the prompt is guarded by a test the rule does not classify (bb{unread[0]})")
